@@ -174,6 +174,7 @@ def run_case(case):
                 def cb():
                     if fault is not None and fault[0] == 'callback':
                         p._fault_fired = p._fault_exc
+                        res['terminated_before_fault'] = p.has_terminated()
                         raise p._fault_exc
                 p.call_soon(cb)
         except BaseException as e:  # noqa
@@ -192,7 +193,17 @@ def run_case(case):
         if not loop.step_one() and last <= n:
             break
         n += 1
-    # completion: play, resume, drain; a live process must still be controllable
+    # a live process must still be controllable: a fresh pause request takes effect (then the run is completed by play)
+    res['probe_pause'] = None
+    if not p.has_terminated() and fault is not None and fault[0] == 'hook' and fault[1] in PAUSE_HOOKS and p._fault_fired is not None:
+        if p.paused:
+            do('play')
+        do('pause')
+        k = 0
+        while k < 50 and not p.paused and not p.has_terminated() and loop.step_one():
+            k += 1
+        res['probe_pause'] = bool(p.paused) or p.has_terminated()
+    # completion: play, resume, drain
     for _ in range(4):
         if not p.has_terminated():
             do('play')
@@ -237,6 +248,8 @@ def model_query(case, res):
     """the transition in which the fault fired, as a line for `pmodel fault` (None when the fault is not a transition fault)"""
     f = case['fault']
     if f is None or not res.get('fired'):
+        return None
+    if f[0] == 'callback' and res.get('terminated_before_fault'):
         return None
     if f[0] in ('step', 'callback') or (f[0] == 'hook' and f[1] in OUTPUT_HOOKS):
         # the exception reaches the end of the step / fail(): a plain transition to EXCEPTED with it
@@ -288,6 +301,9 @@ def monitors(case, res, base):
     if res['transitioning']:
         F('c03-stuck-transitioning', 'the process is never left stuck between states')
     kind = f[0]
+    if kind == 'callback' and res.get('terminated_before_fault'):
+        # a late callback failing on a process that has already terminated must change nothing (that is C01)
+        return out
     if kind in ('hook', 'step', 'callback') and not (kind == 'hook' and f[1] in PAUSE_HOOKS):
         ok = (res['state'] == 'excepted' and res['exception_is_fault'] and res['closed'] and res['future'] == 'exc-fault'
               and res['task'] == 'done')
@@ -307,6 +323,9 @@ def monitors(case, res, base):
         elif res['state'] not in ('finished', 'killed'):
             F('c03-pause-fault-uncontrollable', 'a fault in a pause or play hook leaves the process live and controllable',
               dict(state=res['state']))
+        elif res.get('probe_pause') is False:
+            F('c03-pause-fault-uncontrollable', 'a fault in a pause or play hook leaves the process live and controllable',
+              dict(detail='a further pause() after the fault never took effect', calls=res['calls'][-4:]))
     elif kind == 'listener':
         same = all(res[k] == base[k] for k in ('state', 'trace', 'outputs', 'result', 'future', 'closed', 'entered', 'cleanups'))
         if not same:
@@ -334,12 +353,13 @@ def gen_cases(ctx):
     for h in PAUSE_HOOKS:
         for o in (1, 2):
             for v in ('before', 'after'):
-                for sc in pp + [{**s, 8: ['kill']} for s in pp[::5]]:
+                for sc in pp + [{i: ['pause']} for i in P] + [{**s, 8: ['kill']} for s in pp[::5]]:
                     cases.append(dict(fault=('hook', h, o, v), schedule=sc))
     for st in STEPS:
         for sc in plain + kills + pp[::2]:
             cases.append(dict(fault=('step', st, 1, 'before'), schedule=sc))
-    for sc in calls + [{**c, 0: ['pause'], 3: ['play']} for c in calls if 0 not in c and 3 not in c]:
+    both = [{i: [a, 'callsoon']} for i in P for a in ('kill', 'pause')] + [{i: ['callsoon', a]} for i in P for a in ('kill', 'pause')]
+    for sc in calls + both + [{**c, 0: ['pause'], 3: ['play']} for c in calls if 0 not in c and 3 not in c]:
         cases.append(dict(fault=('callback', 'cb', 1, 'before'), schedule=sc))
     for h in LISTENER_HOOKS:
         for o in (1, 2):
